@@ -8,7 +8,7 @@ namespace StarsimModel.Loop
 /-! ### Membership in the cross product -/
 
 theorem mem_block {T : Times} {f : Func} {e : Entry} :
-    e ∈ block T f ↔ ∃ k, k < T.npts f.owner ∧ e = ⟨T.tv f.owner k, f.order, f.owner, f.finish, k, f.row⟩ := by
+    e ∈ block T f ↔ ∃ k, k < T.npts f.owner ∧ e = ⟨T.tv f.owner k, f.order, f.owner, f.clock, f.finish, k, f.row⟩ := by
   simp only [block, List.mem_map, List.mem_range]
   constructor
   · rintro ⟨k, hk, rfl⟩; exact ⟨k, hk, rfl⟩
@@ -16,7 +16,7 @@ theorem mem_block {T : Times} {f : Func} {e : Entry} :
 
 theorem mem_cross {T : Times} {fl : List Func} {e : Entry} :
     e ∈ cross T fl ↔ ∃ f ∈ fl, ∃ k, k < T.npts f.owner ∧
-      e = ⟨T.tv f.owner k, f.order, f.owner, f.finish, k, f.row⟩ := by
+      e = ⟨T.tv f.owner k, f.order, f.owner, f.clock, f.finish, k, f.row⟩ := by
   simp only [cross, List.mem_flatMap, mem_block]
 
 /-! ### Facts about ordered function lists -/
@@ -44,8 +44,8 @@ theorem order_inj {fl : List Func} {n : Nat} (hO : Ordered fl n) {f g : Func} (h
 /-- With `FinishLast`, the clock-incrementing function of an owner has the largest order among the owner's
     functions. -/
 theorem finish_order_max {fl : List Func} {n : Nat} (hO : Ordered fl n) (hF : FinishLast fl) {f fm : Func}
-    (hf : f ∈ fl) (hfm : fm ∈ fl) (how : f.owner = fm.owner) (hfin : fm.finish = true) : f.order ≤ fm.order := by
-  have hb : fl.Pairwise (fun a b => a.order < b.order ∧ (a.owner = b.owner → a.finish = false)) := hO.1.and hF
+    (hf : f ∈ fl) (hfm : fm ∈ fl) (how : f.clock = fm.clock) (hfin : fm.finish = true) : f.order ≤ fm.order := by
+  have hb : fl.Pairwise (fun a b => a.order < b.order ∧ (a.clock = b.clock → a.finish = false)) := hO.1.and hF
   rcases pairwise_trichotomy hb f hf fm hfm with h | h | h
   · subst h; exact Nat.le_refl _
   · exact Nat.le_of_lt h.1
@@ -185,7 +185,7 @@ theorem countP_true_range (N : Nat) : (List.range N).countP (fun _ => true) = N 
 
 /-! ### Execution -/
 
-def isFinOf (m : Nat) (x : Entry) : Bool := x.finish && x.owner == m
+def isFinOf (m : Nat) (x : Entry) : Bool := x.finish && x.clock == m
 
 theorem getClk_incr (c : Clocks) : ∀ (m m' : Nat),
     getClk (incr c m) m' = if m' = m then getClk c m' + 1 else getClk c m' := by
@@ -219,14 +219,14 @@ theorem getClk_bump (clk : Clocks) (e : Entry) (m : Nat) :
   unfold bump isFinOf
   by_cases hf : e.finish = true
   · simp only [hf, if_true, getClk_incr, Bool.true_and, beq_iff_eq]
-    by_cases h : m = e.owner
+    by_cases h : m = e.clock
     · simp [h]
-    · have h' : ¬ e.owner = m := fun x => h x.symm
+    · have h' : ¬ e.clock = m := fun x => h x.symm
       simp [h, h']
   · simp [hf]
 
 theorem trace_mem {p : List Entry} : ∀ {clk : Clocks} {e : Entry} {c : Nat}, (e, c) ∈ trace clk p →
-    ∃ pre post, p = pre ++ e :: post ∧ c = getClk clk e.owner + pre.countP (isFinOf e.owner) := by
+    ∃ pre post, p = pre ++ e :: post ∧ c = getClk clk e.clock + pre.countP (isFinOf e.clock) := by
   induction p with
   | nil => intro clk e c h; simp [trace] at h
   | cons e' r ih =>
@@ -273,9 +273,9 @@ theorem countP_cross_zero {T : Times} {fl : List Func} {P : Entry → Bool}
     owner's unique `finish` function. -/
 theorem countP_cross_finish {T : Times} {fl : List Func} (hF : FinishLast fl) {fm : Func} (hfm : fm ∈ fl)
     (hfin : fm.finish = true) (Q : Entry → Bool) :
-    (cross T fl).countP (fun x => isFinOf fm.owner x && Q x) =
+    (cross T fl).countP (fun x => isFinOf fm.clock x && Q x) =
       (List.range (T.npts fm.owner)).countP
-        (fun k => Q ⟨T.tv fm.owner k, fm.order, fm.owner, fm.finish, k, fm.row⟩) := by
+        (fun k => Q ⟨T.tv fm.owner k, fm.order, fm.owner, fm.clock, fm.finish, k, fm.row⟩) := by
   obtain ⟨pre, post, rfl⟩ := List.append_of_mem hfm
   unfold FinishLast at hF
   rw [List.pairwise_append] at hF
@@ -284,21 +284,21 @@ theorem countP_cross_finish {T : Times} {fl : List Func} (hF : FinishLast fl) {f
   have hcross : cross T (pre ++ fm :: post) = cross T pre ++ (block T fm ++ cross T post) := by
     simp [cross, List.flatMap_append, List.flatMap_cons]
   rw [hcross, List.countP_append, List.countP_append]
-  have hpre : (cross T pre).countP (fun x => isFinOf fm.owner x && Q x) = 0 := by
+  have hpre : (cross T pre).countP (fun x => isFinOf fm.clock x && Q x) = 0 := by
     apply countP_cross_zero
     intro f hf e he
     obtain ⟨k, _, rfl⟩ := mem_block.1 he
     simp only [isFinOf]
-    by_cases ho : f.owner = fm.owner
+    by_cases ho : f.clock = fm.clock
     · have := h3 f hf fm List.mem_cons_self ho
       simp [this]
     · simp [ho]
-  have hpost : (cross T post).countP (fun x => isFinOf fm.owner x && Q x) = 0 := by
+  have hpost : (cross T post).countP (fun x => isFinOf fm.clock x && Q x) = 0 := by
     apply countP_cross_zero
     intro f hf e he
     obtain ⟨k, _, rfl⟩ := mem_block.1 he
     simp only [isFinOf]
-    by_cases ho : f.owner = fm.owner
+    by_cases ho : f.clock = fm.clock
     · have := h2.1 f hf ho.symm
       simp [hfin] at this
     · simp [ho]
@@ -391,14 +391,15 @@ theorem strictMonoB_sound {T : Times} {owners : List Nat} (h : strictMonoB T own
 /-! ### `collect`: facts that hold for every module set, given decidable facts about the table -/
 
 theorem mem_numberFrom {raw : List RawFunc} : ∀ {i : Nat} {f : Func}, f ∈ numberFrom i raw →
-    (∃ r ∈ raw, f.owner = r.owner ∧ f.finish = r.finish ∧ f.row = r.row) ∧ i ≤ f.order ∧ f.order < i + raw.length := by
+    (∃ r ∈ raw, f.owner = r.owner ∧ f.clock = r.clock ∧ f.finish = r.finish ∧ f.row = r.row) ∧
+    i ≤ f.order ∧ f.order < i + raw.length := by
   induction raw with
   | nil => intro i f h; simp [numberFrom] at h
   | cons r rs ih =>
       intro i f h
       simp only [numberFrom, List.mem_cons] at h
       rcases h with h | h
-      · subst h; exact ⟨⟨r, List.mem_cons_self, rfl, rfl, rfl⟩, Nat.le_refl _, by simp⟩
+      · subst h; exact ⟨⟨r, List.mem_cons_self, rfl, rfl, rfl, rfl⟩, Nat.le_refl _, by simp⟩
       · obtain ⟨⟨r', hr', h1⟩, h2, h3⟩ := ih h
         exact ⟨⟨r', List.mem_cons_of_mem _ hr', h1⟩, by omega, by simp only [List.length_cons]; omega⟩
 
@@ -420,8 +421,8 @@ theorem numberFrom_ordered (raw : List RawFunc) : ∀ i, (numberFrom i raw).Pair
       omega
 
 theorem numberFrom_pairwise {R : Nat → Bool → Nat → Bool → Prop} (raw : List RawFunc) :
-    raw.Pairwise (fun a b => R a.owner a.finish b.owner b.finish) →
-    ∀ i, (numberFrom i raw).Pairwise (fun a b => R a.owner a.finish b.owner b.finish) := by
+    raw.Pairwise (fun a b => R a.clock a.finish b.clock b.finish) →
+    ∀ i, (numberFrom i raw).Pairwise (fun a b => R a.clock a.finish b.clock b.finish) := by
   induction raw with
   | nil => intro _ i; simp [numberFrom]
   | cons r rs ih =>
@@ -430,9 +431,20 @@ theorem numberFrom_pairwise {R : Nat → Bool → Nat → Bool → Prop} (raw : 
       simp only [numberFrom, List.pairwise_cons]
       refine ⟨?_, ih h.2 (i + 1)⟩
       intro f hf
-      obtain ⟨⟨r', hr', h1, h2, _⟩, _⟩ := mem_numberFrom hf
+      obtain ⟨⟨r', hr', _, h1, h2, _⟩, _⟩ := mem_numberFrom hf
       rw [h1, h2]
       exact h.1 r' hr'
+
+theorem numberFrom_lift (raw : List RawFunc) : ∀ (i : Nat) (r : RawFunc), r ∈ raw →
+    ∃ g ∈ numberFrom i raw, g.owner = r.owner ∧ g.clock = r.clock ∧ g.finish = r.finish := by
+  induction raw with
+  | nil => intro i r h; simp at h
+  | cons r' rs ih =>
+      intro i r h
+      rcases List.mem_cons.1 h with h | h
+      · subst h; exact ⟨⟨r.owner, r.clock, r.finish, i, r.row⟩, by simp [numberFrom], rfl, rfl, rfl⟩
+      · obtain ⟨g, hg, h1⟩ := ih (i + 1) r h
+        exact ⟨g, by simp [numberFrom, hg], h1⟩
 
 theorem collect_ordered (table : List Row) (mods : List Mod) :
     Ordered (collect table mods) (collect table mods).length := by
@@ -446,7 +458,7 @@ theorem collect_ordered (table : List Row) (mods : List Mod) :
 /-! #### owners -/
 
 theorem mem_ofKind {mods : List Mod} {k : Kind} {o : Nat} :
-    o ∈ ofKind mods k ↔ ∃ i, i < mods.length ∧ (mods.getD i ⟨.analyzers, false⟩).kind = k ∧ o = i + 1 := by
+    o ∈ ofKind mods k ↔ ∃ i, i < mods.length ∧ (mods.getD i dfltMod).kind = k ∧ o = i + 1 := by
   simp only [ofKind, List.mem_map, List.mem_filter, List.mem_range, beq_iff_eq]
   constructor
   · rintro ⟨i, ⟨h1, h2⟩, rfl⟩; exact ⟨i, h1, h2, rfl⟩
@@ -456,7 +468,7 @@ theorem ofKind_nodup (mods : List Mod) (k : Kind) : (ofKind mods k).Nodup := by
   unfold ofKind List.Nodup
   rw [List.pairwise_map]
   have : ((List.range mods.length).filter
-      (fun i => (mods.getD i ⟨.analyzers, false⟩).kind == k)).Pairwise (· ≠ ·) :=
+      (fun i => (mods.getD i dfltMod).kind == k)).Pairwise (· ≠ ·) :=
     List.Pairwise.filter _ List.nodup_range
   exact this.imp (fun h h' => h (by omega))
 
@@ -479,14 +491,16 @@ theorem ofKind_sub_chain (mods : List Mod) (k : Kind) : ∀ o ∈ ofKind mods k,
   rw [List.mem_flatMap]
   exact ⟨k, by cases k <;> decide, ho⟩
 
-theorem chain_pos {mods : List Mod} {o : Nat} (h : o ∈ chain mods) : 1 ≤ o := by
+theorem mem_chain {mods : List Mod} {o : Nat} (h : o ∈ chain mods) : 1 ≤ o ∧ o ≤ mods.length := by
   unfold chain at h
   obtain ⟨k, _, hk⟩ := List.mem_flatMap.1 h
-  obtain ⟨i, _, _, rfl⟩ := mem_ofKind.1 hk
+  obtain ⟨i, hi, _, rfl⟩ := mem_ofKind.1 hk
   omega
 
-/-- Class of owners a container expression can denote: `some true` = the sim itself (owner 0),
-    `some false` = modules (owners ≥ 1), `none` = not understood (no owners). -/
+theorem chain_pos {mods : List Mod} {o : Nat} (h : o ∈ chain mods) : 1 ≤ o := (mem_chain h).1
+
+/-- Class of clock owners a container expression can denote: `some true` = the sim's clock (owner 0, also for
+    `people.*`), `some false` = modules (owners ≥ 1), `none` = not understood (no functions). -/
 def contIsSim (r : Row) : Option Bool :=
   match parseCont r.1, parseGuard r.2.2 with
   | some .sim, some _ => some true
@@ -521,8 +535,8 @@ theorem rowOwners_nodup (mods : List Mod) (r : Row) : (rowOwners mods r).Nodup :
   · exact List.Pairwise.filter _ (ofKind_nodup mods _)
   · simp
 
-/-- Table-level condition (decidable): a row that increments clocks is followed only by rows whose owners are of
-    the other class (so no function of the same owner comes after its `finish_step`). -/
+/-- Table-level condition (decidable): a row that increments clocks is followed only by rows whose clock owners are
+    of the other class (so no function reading a clock comes after that clock's `finish_step`). -/
 def tableFinishLast (L : List (Row × Nat)) : Prop :=
   L.Pairwise (fun a b => rowFinish a.1 = true →
     (contIsSim a.1 = some true ∧ contIsSim b.1 = some false) ∨
@@ -532,7 +546,7 @@ instance (L : List (Row × Nat)) : Decidable (tableFinishLast L) := by
   unfold tableFinishLast; exact inferInstance
 
 theorem collectRaw_finishLast {L : List (Row × Nat)} (hT : tableFinishLast L) (mods : List Mod) :
-    (L.flatMap (fun ri => rowFuncs mods ri.1 ri.2)).Pairwise (fun a b => a.owner = b.owner → a.finish = false) := by
+    (L.flatMap (fun ri => rowFuncs mods ri.1 ri.2)).Pairwise (fun a b => a.clock = b.clock → a.finish = false) := by
   rw [List.pairwise_flatMap]
   constructor
   · intro ri _
@@ -560,55 +574,40 @@ theorem collect_finishLast {table : List Row} (hT : tableFinishLast table.zipIdx
     FinishLast (collect table mods) :=
   numberFrom_pairwise (R := fun o f o' _ => o = o' → f = false) _ (collectRaw_finishLast hT mods) 0
 
-/-- Every function's owner has a clock-incrementing function, provided the table has the two unguarded
+theorem zipIdx_mem {α} (l : List α) (a : α) (h : a ∈ l) : ∃ i, (a, i) ∈ l.zipIdx := by
+  obtain ⟨i, hi, hget⟩ := List.getElem_of_mem h
+  exact ⟨i, by rw [List.mem_zipIdx_iff_getElem?]; simp [hget, hi]⟩
+
+/-- Every function's clock has a clock-incrementing function, provided the table has the two unguarded
     `finish_step` rows. -/
 theorem collect_everyOwnerFinishes {table : List Row}
     (hsim : ("sim", "finish_step", "") ∈ table) (hmod : ("sim.modules", "finish_step", "") ∈ table)
     (mods : List Mod) :
-    ∀ f ∈ collect table mods, ∃ fm ∈ collect table mods, fm.owner = f.owner ∧ fm.finish = true := by
-  -- any raw function with the wanted owner/finish gives a numbered one
-  have lift : ∀ (raw : List RawFunc) (i : Nat) (r : RawFunc), r ∈ raw →
-      ∃ g ∈ numberFrom i raw, g.owner = r.owner ∧ g.finish = r.finish := by
-    intro raw
-    induction raw with
-    | nil => intro i r h; simp at h
-    | cons r' rs ih =>
-        intro i r h
-        rcases List.mem_cons.1 h with h | h
-        · subst h; exact ⟨⟨r.owner, r.finish, i, r.row⟩, by simp [numberFrom], rfl, rfl⟩
-        · obtain ⟨g, hg, h1⟩ := ih (i + 1) r h
-          exact ⟨g, by simp [numberFrom, hg], h1⟩
+    ∀ f ∈ collect table mods, ∃ fm ∈ collect table mods, fm.clock = f.clock ∧ fm.finish = true := by
   have hfs : rowFinish ("sim", "finish_step", "") = true := by decide
   have hfm : rowFinish ("sim.modules", "finish_step", "") = true := by decide
   have hcs : parseCont "sim" = some .sim := by decide
   have hc : parseCont "sim.modules" = some .modules := by decide
   have hg : parseGuard "" = some false := by decide
   intro f hf
-  obtain ⟨⟨r, hr, ho, _, _⟩, _⟩ := mem_numberFrom hf
-  -- owner class of f
+  obtain ⟨⟨r, hr, _, hck, _, _⟩, _⟩ := mem_numberFrom hf
   unfold collectRaw at hr
   obtain ⟨ri, hri, hr'⟩ := List.mem_flatMap.1 hr
   simp only [rowFuncs, List.mem_map] at hr'
   obtain ⟨o, hoo, rfl⟩ := hr'
-  simp only at ho
-  -- helper: membership of a row of the table in table.zipIdx
-  have zmem : ∀ (row : Row), row ∈ table → ∃ i, (row, i) ∈ table.zipIdx := by
-    intro row hrow
-    obtain ⟨i, hi, hget⟩ := List.getElem_of_mem hrow
-    exact ⟨i, by rw [List.mem_zipIdx_iff_getElem?]; simp [hget, hi]⟩
+  simp only at hck
   rcases rowOwners_class hoo with ⟨_, h0⟩ | ⟨_, _, hch⟩
-  · -- the sim: row ("sim","finish_step","")
-    obtain ⟨i, hi⟩ := zmem _ hsim
-    have : (⟨0, true, i⟩ : RawFunc) ∈ collectRaw table mods := by
+  · obtain ⟨i, hi⟩ := zipIdx_mem _ _ hsim
+    have : (⟨schedOwner mods ("sim", "finish_step", "") 0, 0, true, i⟩ : RawFunc) ∈ collectRaw table mods := by
       unfold collectRaw
       rw [List.mem_flatMap]
       refine ⟨_, hi, ?_⟩
       simp only [rowFuncs, List.mem_map]
       exact ⟨0, by simp [rowOwners, hcs, hg], by rw [hfs]⟩
-    obtain ⟨g, hg, h1, h2⟩ := lift _ 0 _ this
-    exact ⟨g, hg, by simp_all, by simp_all⟩
-  · obtain ⟨i, hi⟩ := zmem _ hmod
-    have : (⟨o, true, i⟩ : RawFunc) ∈ collectRaw table mods := by
+    obtain ⟨g, hg', _, h1, h2⟩ := numberFrom_lift _ 0 _ this
+    exact ⟨g, hg', by simp_all, by simp_all⟩
+  · obtain ⟨i, hi⟩ := zipIdx_mem _ _ hmod
+    have : (⟨schedOwner mods ("sim.modules", "finish_step", "") o, o, true, i⟩ : RawFunc) ∈ collectRaw table mods := by
       unfold collectRaw
       rw [List.mem_flatMap]
       refine ⟨_, hi, ?_⟩
@@ -616,7 +615,132 @@ theorem collect_everyOwnerFinishes {table : List Row}
       refine ⟨o, ?_, by rw [hfm]⟩
       simp only [rowOwners, hc, hg, List.mem_filter]
       exact ⟨hch, by simp⟩
-    obtain ⟨g, hg, h1, h2⟩ := lift _ 0 _ this
-    exact ⟨g, hg, by simp_all, by simp_all⟩
+    obtain ⟨g, hg', _, h1, h2⟩ := numberFrom_lift _ 0 _ this
+    exact ⟨g, hg', by simp_all, by simp_all⟩
+
+/-! #### names -/
+
+theorem resolveIn_not_mem (l : List (Nat × Nat)) (name dflt : Nat) (h : ∀ on ∈ l, on.2 ≠ name) :
+    resolveIn l name dflt = dflt := by
+  unfold resolveIn
+  induction l generalizing dflt with
+  | nil => rfl
+  | cons a r ih =>
+      simp only [List.foldl_cons]
+      have ha : a.2 ≠ name := h a List.mem_cons_self
+      simp only [ha, if_false]
+      exact ih dflt (fun on hon => h on (List.mem_cons_of_mem _ hon))
+
+/-- If the only entry of the table with that name belongs to `o`, the lookup gives `o`. -/
+theorem resolveIn_unique (l : List (Nat × Nat)) (name o : Nat) (hmem : (o, name) ∈ l)
+    (huniq : ∀ on ∈ l, on.2 = name → on.1 = o) : ∀ dflt, resolveIn l name dflt = o := by
+  unfold resolveIn
+  induction l with
+  | nil => simp at hmem
+  | cons a r ih =>
+      intro dflt
+      simp only [List.foldl_cons]
+      by_cases hr : (o, name) ∈ r
+      · exact ih hr (fun on hon => huniq on (List.mem_cons_of_mem _ hon)) _
+      · have ha : a = (o, name) := by
+          rcases List.mem_cons.1 hmem with h | h
+          · exact h.symm
+          · exact absurd h hr
+        subst ha
+        simp only [if_true]
+        have hnone : ∀ on ∈ r, on.2 ≠ name := by
+          intro on hon hn
+          have := huniq on (List.mem_cons_of_mem _ hon) hn
+          have : on = (o, name) := by cases on; simp_all
+          exact hr (this ▸ hon)
+        exact resolveIn_not_mem r name o hnone
+
+theorem mem_nameTable {mods : List Mod} {on : Nat × Nat} (h : on ∈ nameTable mods) :
+    on.1 ∈ chain mods ∧ on.2 = (mods.getD (on.1 - 1) dfltMod).nameId := by
+  simp only [nameTable, List.mem_map] at h
+  obtain ⟨o, ho, rfl⟩ := h
+  exact ⟨ho, rfl⟩
+
+theorem getD_nameId_inj {mods : List Mod} (hN : NamesDistinct mods) {i j : Nat} (hi : i < mods.length)
+    (hj : j < mods.length) (h : (mods.getD i dfltMod).nameId = (mods.getD j dfltMod).nameId) : i = j := by
+  have hp := hN.1
+  rw [List.pairwise_map] at hp
+  rcases Nat.lt_trichotomy i j with hlt | heq | hgt
+  · exfalso
+    have := (List.pairwise_iff_getElem.1 hp) i j hi hj hlt
+    simp only [List.getD_eq_getElem?_getD, List.getElem?_eq_getElem hi, List.getElem?_eq_getElem hj,
+      Option.getD_some] at h
+    exact this h
+  · exact heq
+  · exfalso
+    have := (List.pairwise_iff_getElem.1 hp) j i hj hi hgt
+    simp only [List.getD_eq_getElem?_getD, List.getElem?_eq_getElem hi, List.getElem?_eq_getElem hj,
+      Option.getD_some] at h
+    exact this h.symm
+
+theorem getD_nameId_ge {mods : List Mod} (hN : NamesDistinct mods) {i : Nat} (hi : i < mods.length) :
+    2 ≤ (mods.getD i dfltMod).nameId := by
+  have : mods.getD i dfltMod ∈ mods := by
+    simp only [List.getD_eq_getElem?_getD, List.getElem?_eq_getElem hi, Option.getD_some]
+    exact List.getElem_mem hi
+  exact hN.2 _ this
+
+/-- With distinct module names (none of them `sim` / `people`) every function is scheduled on its own entry:
+    `owner = clock` for the sim's and the modules' functions, `owner = people` (clock = sim) for `people.*`. -/
+theorem schedOwner_distinct {mods : List Mod} (hN : NamesDistinct mods) {r : Row} {o : Nat}
+    (ho : o ∈ rowOwners mods r) : schedOwner mods r o = o ∨ (schedOwner mods r o = mods.length + 1 ∧ o = 0) := by
+  have hres : ∀ (name : Nat), name < 2 → ∀ d, resolveIn (nameTable mods) name d = d := by
+    intro name hn d
+    apply resolveIn_not_mem
+    intro on hon heq
+    obtain ⟨hc, hnm⟩ := mem_nameTable hon
+    have hb := mem_chain hc
+    have := getD_nameId_ge hN (i := on.1 - 1) (by omega)
+    omega
+  rcases rowOwners_class ho with ⟨hcls, h0⟩ | ⟨hcls, h1, hch⟩
+  · subst h0
+    unfold contIsSim at hcls
+    unfold schedOwner
+    split at hcls <;> simp_all
+  · have hb := mem_chain hch
+    left
+    have : schedOwner mods r o = resolveIn (nameTable mods) (mods.getD (o - 1) dfltMod).nameId o := by
+      unfold contIsSim at hcls
+      unfold schedOwner
+      split at hcls <;> simp_all
+    rw [this]
+    apply resolveIn_unique
+    · simp only [nameTable, List.mem_map]; exact ⟨o, hch, rfl⟩
+    · intro on hon heq
+      obtain ⟨hc, hnm⟩ := mem_nameTable hon
+      have hb' := mem_chain hc
+      have := getD_nameId_inj hN (i := on.1 - 1) (j := o - 1) (by omega) (by omega) (by rw [← hnm, heq])
+      omega
+
+theorem collect_sched {table : List Row} {mods : List Mod} (hN : NamesDistinct mods) :
+    ∀ f ∈ collect table mods, f.owner = f.clock ∨ (f.owner = mods.length + 1 ∧ f.clock = 0) := by
+  intro f hf
+  obtain ⟨⟨r, hr, ho, hck, _, _⟩, _⟩ := mem_numberFrom hf
+  unfold collectRaw at hr
+  obtain ⟨ri, _, hr'⟩ := List.mem_flatMap.1 hr
+  simp only [rowFuncs, List.mem_map] at hr'
+  obtain ⟨o, hoo, rfl⟩ := hr'
+  simp only at ho hck
+  rw [ho, hck]
+  exact schedOwner_distinct hN hoo
+
+/-- …hence `Aligned`, when the `people` entry holds the sim's time vector. -/
+theorem collect_aligned {table : List Row} {mods : List Mod} (hN : NamesDistinct mods) (T : Times)
+    (hP : T.npts (mods.length + 1) = T.npts 0 ∧ ∀ k, k < T.npts 0 → T.tv (mods.length + 1) k = T.tv 0 k) :
+    Aligned T (collect table mods) := by
+  intro f hf
+  rcases collect_sched hN f hf with h | ⟨h1, h2⟩
+  · rw [h]; exact ⟨rfl, fun _ _ => rfl⟩
+  · rw [h1, h2]; exact ⟨hP.1, fun k hk => hP.2 k (hP.1 ▸ hk)⟩
+
+theorem alignedB_sound {T : Times} {fl : List Func} (h : alignedB T fl = true) : Aligned T fl := by
+  simp only [alignedB, List.all_eq_true, Bool.and_eq_true, beq_iff_eq, List.mem_range] at h
+  intro f hf
+  exact ⟨(h f hf).1, fun k hk => (h f hf).2 k hk⟩
 
 end StarsimModel.Loop
